@@ -106,8 +106,28 @@ def rule_round_trip(check, proto, rule):
         n2 += 1
         stp = site(None, ap.node)
         if lst is None:
-            check.inconclusive(rule, stp, 'apply_params: no `sig.replace(parameters=...)` on this path', key=key)
-            continue
+            # built with the class constructor instead of sig.replace(): everything replace() would have kept
+            # (return annotation and its upgraded twin) has to be handed over explicitly
+            sigp = ('P', pos[0])
+            ctor = [e for e in p.effects if e.kind == 'call' and e.extra == 'new' and str(e.op).endswith(':UpgradedSignature')]
+            if not ctor:
+                check.inconclusive(rule, stp, 'apply_params: no `sig.replace(parameters=...)` on this path', key=key)
+                continue
+            c = ctor[-1]
+            kws = dict(c.kws)
+            lst = c.args[0] if c.args else kws.get('parameters')
+            lost = []
+            for attr in ('return_annotation', 'upgraded_return_annotation'):
+                v = kws.get(attr)
+                if v is None or not any(isinstance(x, tuple) and x[0] == 'A' and x[2] == attr for x in subterms(v)):
+                    lost.append(attr)
+            if lost:
+                check.violation(rule, site(None, c.node), 'apply_params rebuilds the signature with the constructor and does not hand over %s of the '
+                                'signature it is based on: the result of the round trip differs from its input' % ' and '.join(lost),
+                                key=key + '|ctor', guards=lits_text(p.lits),
+                                witness="apply_params(s, *sort_params(s)) == s for a signature with a return annotation")
+            if lst is None:
+                continue
         seq = []
         for e in p.effects:
             if e.kind == 'mut' and e.target == lst:
